@@ -109,7 +109,7 @@ Definition run_script (a : sx) : sx :=
   | SL [SN nc; SN n; SL ops] =>
       let nconn := small nc in
       let ncalls := small n in
-      match interp nconn ncalls ops init_state [] with
+      match interp nconn ncalls ops init_state_without_pinger [] with
       | None => sx_err "script blocked"
       | Some (s, regs) => SL [outcomes ncalls s; SL regs]
       end
@@ -220,7 +220,7 @@ Definition run_race (a : sx) : sx :=
       let ncalls := small n in
       match parse_all parse_emission ems, parse_all parse_obs outs with
       | Some es, Some ob =>
-          match exec nconn qid init_state (start_calls ncalls ++ map (fun e => LEmit (fst e) (snd e)) es) with
+          match exec nconn qid init_state_without_pinger (start_calls ncalls ++ map (fun e => LEmit (fst e) (snd e)) es) with
           | None => SL [SA "reject"; SA "emit"]
           | Some s1 =>
               match schedule (List.length es) nconn s1 ob with
@@ -247,6 +247,26 @@ Definition is_picked (p : call_pc) (k : nat) : bool :=
 
 Definition picked_conn (p : call_pc) : option nat :=
   match p with CPicked k => Some k | _ => None end.
+
+(* one second for connection k.  If the pinger is due, it acts first; on a healthy
+   connection the server would have seen that ping (a 'ping event), so it cannot be
+   assumed silently *)
+Definition tick1 (nconn : nat) (s : state) (k : nat) : option state :=
+  match step nconn qid s (LTick k) with
+  | Some s' => Some s'
+  | None =>
+      if status s k && negb (broken s k) then None
+      else match step nconn qid s (if status s k then LPingOk k else LPingSkip k) with
+           | Some s1 => step nconn qid s1 (LTick k)
+           | None => None
+           end
+  end.
+
+Fixpoint ticks (nconn : nat) (s : state) (k n : nat) : option state :=
+  match n with
+  | O => Some s
+  | S n' => match tick1 nconn s k with Some s' => ticks nconn s' k n' | None => None end
+  end.
 
 Definition event (nconn : nat) (s : state) (e : sx) : option state :=
   match e with
@@ -311,7 +331,9 @@ Definition event (nconn : nat) (s : state) (e : sx) : option state :=
             let k := small k in
             match loops s k, rq s k with
             | S _, _ => go s [LReconnectDone k]                               (* the loop is already running *)
-            | O, O => go s [LSilence k; LReconnectEnter k; LReconnectDone k]   (* nobody asked: the silence rule *)
+            | O, O => if status s k && broken s k && pinger s k
+                      then go s [LPingFail k; LReconnectEnter k; LReconnectDone k]  (* the pinger noticed *)
+                      else go s [LSilence k; LReconnectEnter k; LReconnectDone k]   (* nobody asked: the silence rule *)
             | O, _ => go s [LReconnectEnter k; LReconnectDone k]
             end
         | _ => None
@@ -328,7 +350,17 @@ Definition event (nconn : nat) (s : state) (e : sx) : option state :=
         end
       else if is "tick" then
         match args with
-        | [SN k; SN n] => go s (repeat (LTick (small k)) (small n))
+        | [SN k; SN n] => ticks nconn s (small k) (small n)
+        | _ => None
+        end
+      else if is "pinger" then           (* declaration: connection k was made by NewConnection *)
+        match args with
+        | [SN k] => Some (set_pinger s (cupd (pinger s) (small k) true))
+        | _ => None
+        end
+      else if is "ping" then             (* the server received a ping on connection k *)
+        match args with
+        | [SN k] => if status s (small k) && negb (broken s (small k)) then go s [LPingOk (small k)] else None
         | _ => None
         end
       else if is "reg" then
@@ -356,7 +388,7 @@ Fixpoint events (nconn : nat) (s : state) (es : list sx) (idx : nat) : sx :=
 (* (nconn (action ...) (observed event ...)) -> 'accept | ('reject index-of-event) *)
 Definition run_seq (a : sx) : sx :=
   match a with
-  | SL [SN nc; _; SL es] => events (small nc) init_state es 0
+  | SL [SN nc; _; SL es] => events (small nc) init_state_without_pinger es 0
   | _ => sx_err "seq"
   end.
 
